@@ -10,6 +10,8 @@ a chain is *not* parsed by one call of a rung but by the first call plus iterati
   rungs `k …` would take;
 * `SI e` — where a whole expression stands (`ifExpression`), parsing `ppI e ++ rest` gives `(e, rest)` when `rest` starts with
   neither an operator word nor `, falls`;
+* `SX e` — as the value operand of a conditional expression (`boolXOR`): `ppX e ++ rest`, `rest` not starting with an operator
+  word (`, falls` may follow);
 * `S' e` — at every chain rung `j`, "first operand from rung `j+1`, then the loop of rung `j`" applied to
   `pp j e ++ rest` ends where the loop of rung `j` started with running result `e` on `rest` ends — `rest` may start with
   an operator of rung `j` itself.
@@ -41,6 +43,17 @@ theorem parse_bop {f k o rest} (h : ¬ k < T.n) : parse T (f+1) k (.bop o :: res
 theorem parse_rp {f k rest} (h : ¬ k < T.n) : parse T (f+1) k (.rp :: rest) = none := by simp [parse, h]
 theorem parse_falls {f k rest} (h : ¬ k < T.n) : parse T (f+1) k (.falls :: rest) = none := by simp [parse, h]
 theorem parse_sonst {f k rest} (h : ¬ k < T.n) : parse T (f+1) k (.sonst :: rest) = none := by simp [parse, h]
+theorem parse_entw {f k rest} (h : ¬ k < T.n) : parse T (f+1) k (.entw :: rest) = none := by simp [parse, h]
+theorem parse_oderk {f k rest} (h : ¬ k < T.n) : parse T (f+1) k (.oderk :: rest) = none := by simp [parse, h]
+theorem parseX_zero (ts) : parseX T 0 ts = none := by simp [parseX]
+theorem parseX_entw {f rest} :
+    parseX T (f+1) (.entw :: rest) = ((parse T f 0 rest).bind expectOderk).bind (fun pa =>
+      (parse T f 0 pa.2).bind (fun pb => some (.xor pa.1 pb.1, pb.2))) := by
+  simp [parseX]
+theorem parseX_other {f ts} (h : ∀ r, ts ≠ .entw :: r) : parseX T (f+1) ts = parse T f 0 ts := by
+  cases ts with
+  | nil => simp [parseX]
+  | cons t r => cases t <;> simp_all [parseX]
 theorem loop_bop_eq {f k l o rest} (h : T.lv o = k) :
     loop T (f+1) k l (.bop o :: rest) = (parse T f (k+1) rest).bind (fun p => loop T f k (.bin o l p.1) p.2) := by
   simp [loop, h]
@@ -51,7 +64,7 @@ theorem loop_other {f k l ts} (h : ∀ o r, ts ≠ .bop o :: r) : loop T (f+1) k
   cases ts with
   | nil => simp [loop]
   | cons t r => cases t <;> simp_all [loop]
-theorem parseIf_succ {f ts} : parseIf T (f+1) ts = (parse T f 0 ts).bind (fun p => loopIf T f p.1 p.2) := by
+theorem parseIf_succ {f ts} : parseIf T (f+1) ts = (parseX T f ts).bind (fun p => loopIf T f p.1 p.2) := by
   simp [parseIf]
 theorem loopIf_falls {f l rest} :
     loopIf T (f+1) l (.falls :: rest) = ((parseIf T f rest).bind expectSonst).bind (fun pc =>
@@ -68,13 +81,14 @@ theorem mono_step : ∀ f,
     (∀ k ts x, parse T f k ts = some x → parse T (f+1) k ts = some x) ∧
     (∀ k l ts x, loop T f k l ts = some x → loop T (f+1) k l ts = some x) ∧
     (∀ ts x, parseIf T f ts = some x → parseIf T (f+1) ts = some x) ∧
-    (∀ l ts x, loopIf T f l ts = some x → loopIf T (f+1) l ts = some x) := by
+    (∀ l ts x, loopIf T f l ts = some x → loopIf T (f+1) l ts = some x) ∧
+    (∀ ts x, parseX T f ts = some x → parseX T (f+1) ts = some x) := by
   intro f
   induction f with
-  | zero => refine ⟨?_, ?_, ?_, ?_⟩ <;> intros <;> simp_all [parse_zero, loop_zero, parseIf_zero, loopIf_zero]
+  | zero => refine ⟨?_, ?_, ?_, ?_, ?_⟩ <;> intros <;> simp_all [parse_zero, loop_zero, parseIf_zero, loopIf_zero, parseX_zero]
   | succ f ih =>
-    obtain ⟨ihp, ihl, ihpI, ihlI⟩ := ih
-    refine ⟨?_, ?_, ?_, ?_⟩
+    obtain ⟨ihp, ihl, ihpI, ihlI, ihpX⟩ := ih
+    refine ⟨?_, ?_, ?_, ?_, ?_⟩
     · intro k ts x h
       by_cases hk : k < T.n
       · rw [parse_chain T hk] at h ⊢
@@ -93,6 +107,8 @@ theorem mono_step : ∀ f,
           | rp => simp [parse_rp T hk] at h
           | falls => simp [parse_falls T hk] at h
           | sonst => simp [parse_sonst T hk] at h
+          | entw => simp [parse_entw T hk] at h
+          | oderk => simp [parse_oderk T hk] at h
           | uop u =>
             rw [parse_uop T hk] at h ⊢
             cases hp : parse T f k rest with
@@ -123,11 +139,11 @@ theorem mono_step : ∀ f,
         rw [loop_other T hb'] at h ⊢; exact h
     · intro ts x h
       rw [parseIf_succ] at h ⊢
-      cases hp : parse T f 0 ts with
+      cases hp : parseX T f ts with
       | none => simp [hp] at h
       | some p =>
         simp only [hp, Option.bind_some] at h
-        simp only [ihp _ _ _ hp, Option.bind_some]
+        simp only [ihpX _ _ hp, Option.bind_some]
         exact ihlI _ _ _ h
     · intro l ts x h
       by_cases hb : ∃ r, ts = .falls :: r
@@ -149,6 +165,26 @@ theorem mono_step : ∀ f,
               exact ihlI _ _ _ h
       · have hb' : ∀ r, ts ≠ .falls :: r := fun r hh => hb ⟨r, hh⟩
         rw [loopIf_other T hb'] at h ⊢; exact h
+    · intro ts x h
+      by_cases hb : ∃ r, ts = .entw :: r
+      · obtain ⟨rest, rfl⟩ := hb
+        rw [parseX_entw] at h ⊢
+        cases hp : parse T f 0 rest with
+        | none => simp [hp] at h
+        | some p1 =>
+          simp only [hp, Option.bind_some] at h
+          cases he : expectOderk p1 with
+          | none => simp [he] at h
+          | some pa =>
+            simp only [he, Option.bind_some] at h
+            cases hp2 : parse T f 0 pa.2 with
+            | none => simp [hp2] at h
+            | some pb =>
+              simp only [hp2, Option.bind_some] at h
+              simp only [ihp _ _ _ hp, Option.bind_some, he, ihp _ _ _ hp2]
+              exact h
+      · have hb' : ∀ r, ts ≠ .entw :: r := fun r hh => hb ⟨r, hh⟩
+        rw [parseX_other T hb'] at h ⊢; exact ihp _ _ _ h
 
 theorem parse_mono {f f' k ts x} (hle : f ≤ f') (h : parse T f k ts = some x) : parse T f' k ts = some x := by
   induction hle with
@@ -168,7 +204,12 @@ theorem parseIf_mono {f f' ts x} (hle : f ≤ f') (h : parseIf T f ts = some x) 
 theorem loopIf_mono {f f' l ts x} (hle : f ≤ f') (h : loopIf T f l ts = some x) : loopIf T f' l ts = some x := by
   induction hle with
   | refl => exact h
-  | step _ ih => exact (mono_step T _).2.2.2 _ _ _ ih
+  | step _ ih => exact (mono_step T _).2.2.2.1 _ _ _ ih
+
+theorem parseX_mono {f f' ts x} (hle : f ≤ f') (h : parseX T f ts = some x) : parseX T f' ts = some x := by
+  induction hle with
+  | refl => exact h
+  | step _ ih => exact (mono_step T _).2.2.2.2 _ _ ih
 
 /-- the parser is a function: two runs that both finish agree, whatever fuel they had -/
 theorem parse_det {f f' k ts x y} (h : parse T f k ts = some x) (h' : parse T f' k ts = some y) : x = y := by
@@ -221,6 +262,10 @@ def S' (e : E) : Prop :=
 /-- where a whole `ifExpression` is expected -/
 def SI (e : E) : Prop :=
   ∀ rest, okRestI rest → ∃ f, parseIf T f (ppI T e ++ rest) = some (e, rest)
+
+/-- as the value operand of a conditional expression (`boolXOR`); `, falls` may follow -/
+def SX (e : E) : Prop :=
+  ∀ rest, (∀ o r, rest ≠ .bop o :: r) → ∃ f, parseX T f (ppX T e ++ rest) = some (e, rest)
 
 /-- when the operand prints the same at rung `j` and `j+1`, the first call already delivers it -/
 theorem S'_of_S {e : E} (hS : S T e) (j : Nat) (hpp : pp T j e = pp T (j+1) e) (hj : j < T.n) :
@@ -280,12 +325,34 @@ theorem S'_bin_own (o : Nat) (l r : E) (ho : T.lv o < T.n) (ihl' : S' T l) (ihr 
 theorem okRestI_nobop {rest} (h : okRestI rest) (k : Nat) : okRest T k rest :=
   fun o r hr => absurd hr (h.1 o r)
 
-/-- for everything but a conditional expression, the `ifExpression` position prints like chain rung 0 -/
-theorem SI_of_S {e : E} (hpp : ppI T e = pp T 0 e) (hS : S T e) : SI T e := by
+/-- what a chain rung prints never starts with `entweder` -/
+theorem pp_no_entw : ∀ (e : E) (k : Nat) (rest r : List Tok), pp T k e ++ rest ≠ .entw :: r := by
+  intro e
+  induction e with
+  | atom a => intro k rest r h; simp [pp] at h
+  | un u e _ => intro k rest r h; simp [pp] at h
+  | bin o l r' ihl _ =>
+    intro k rest r h
+    by_cases hlt : T.lv o < k
+    · rw [pp_bin_closed T hlt] at h; simp at h
+    · rw [pp_bin_open T hlt, List.append_assoc] at h
+      exact ihl _ _ _ h
+  | ite a c b _ _ _ => intro k rest r h; simp [pp] at h
+  | xor a b _ _ => intro k rest r h; simp [pp] at h
+
+/-- what prints at `boolXOR` like at chain rung 0 (everything but `entweder`) is read by chain rung 0 -/
+theorem SX_of_S {e : E} (hpp : ppX T e = pp T 0 e) (hS : S T e) : SX T e := by
   intro rest hok
-  obtain ⟨f, hf⟩ := hS 0 (Nat.zero_le _) rest (okRestI_nobop T hok 0)
+  obtain ⟨f, hf⟩ := hS 0 (Nat.zero_le _) rest (fun o r hr => absurd hr (hok o r))
+  refine ⟨f + 1, ?_⟩
+  rw [hpp, parseX_other T (fun r => pp_no_entw T e 0 rest r), hf]
+
+/-- where a whole expression prints like a `boolXOR` operand (everything but a conditional expression) -/
+theorem SI_of_SX {e : E} (hpp : ppI T e = ppX T e) (hSX : SX T e) : SI T e := by
+  intro rest hok
+  obtain ⟨f, hf⟩ := hSX rest hok.1
   refine ⟨f + 2, ?_⟩
-  rw [parseIf_succ, hpp, parse_mono T (Nat.le_succ f) hf]
+  rw [parseIf_succ, hpp, parseX_mono T (Nat.le_succ f) hf]
   simp only [Option.bind_some]
   exact loopIf_other T hok.2
 
@@ -304,16 +371,21 @@ theorem S_bin_open (o : Nat) (l r : E) (ho : T.lv o < T.n) (ihl' : S' T l) (ihr 
     exact ⟨f+1, by rw [parse_chain T ho]; exact hf⟩
   · intro o' r' hr; exact Or.inl (hok o' r' hr)
 
-theorem ppI_bin {o l r} : ppI T (.bin o l r) = pp T 0 (.bin o l r) := by
-  rw [pp_bin_open T (Nat.not_lt_zero _)]; simp [ppI]
+theorem ppX_bin {o l r} : ppX T (.bin o l r) = pp T 0 (.bin o l r) := by
+  rw [pp_bin_open T (Nat.not_lt_zero _)]; simp [ppX]
 
-theorem SI_bin (o : Nat) (l r : E) (ho : T.lv o < T.n) (ihl' : S' T l) (ihr : S T r) : SI T (.bin o l r) := by
+theorem S_bin0 (o : Nat) (l r : E) (ho : T.lv o < T.n) (ihl' : S' T l) (ihr : S T r) :
+    ∀ rest, (∀ o' r', rest ≠ .bop o' :: r') → ∃ f, parse T f 0 (pp T 0 (.bin o l r) ++ rest) = some (.bin o l r, rest) :=
+  fun rest hok => S_bin_open T o l r ho ihl' ihr 0 (Nat.zero_le _) rest (fun o' r' hr => absurd hr (hok o' r'))
+
+theorem SX_bin (o : Nat) (l r : E) (ho : T.lv o < T.n) (ihl' : S' T l) (ihr : S T r) : SX T (.bin o l r) := by
   intro rest hok
-  obtain ⟨f, hf⟩ := S_bin_open T o l r ho ihl' ihr 0 (Nat.zero_le _) rest (okRestI_nobop T hok 0)
-  refine ⟨f + 2, ?_⟩
-  rw [parseIf_succ, ppI_bin, parse_mono T (Nat.le_succ f) hf]
-  simp only [Option.bind_some]
-  exact loopIf_other T hok.2
+  obtain ⟨f, hf⟩ := S_bin0 T o l r ho ihl' ihr rest hok
+  refine ⟨f + 1, ?_⟩
+  rw [ppX_bin, parseX_other T (fun r' => pp_no_entw T _ 0 rest r'), hf]
+
+theorem SI_bin (o : Nat) (l r : E) (ho : T.lv o < T.n) (ihl' : S' T l) (ihr : S T r) : SI T (.bin o l r) :=
+  SI_of_SX T rfl (SX_bin T o l r ho ihl' ihr)
 
 /-- an operand in parentheses: `primary` reads `(`, `ifExpression` reads the operand, `)` follows -/
 theorem S_paren {e : E} (hSI : SI T e) (k : Nat) (hk : k ≤ T.n) (rest : List Tok) (hok : okRest T k rest) :
@@ -344,12 +416,12 @@ theorem S'_bin (o : Nat) (l r : E) (ho : T.lv o < T.n) (ihl' : S' T l) (ihr : S 
     · rw [pp_bin_open T hlt, pp_bin_open T (by omega)]
 
 /-- `a, falls c, ansonsten b` where a whole `ifExpression` is expected -/
-theorem SI_ite (a c b : E) (iha : S T a) (ihc : SI T c) (ihb : SI T b) : SI T (.ite a c b) := by
+theorem SI_ite (a c b : E) (iha : SX T a) (ihc : SI T c) (ihb : SI T b) : SI T (.ite a c b) := by
   intro rest hok
   obtain ⟨f3, h3⟩ := ihb rest hok
   obtain ⟨f2, h2⟩ := ihc (.sonst :: (ppI T b ++ rest)) ⟨fun o r h => (by cases h), fun r h => (by cases h)⟩
-  obtain ⟨f1, h1⟩ := iha 0 (Nat.zero_le _) (.falls :: (ppI T c ++ .sonst :: (ppI T b ++ rest))) (fun o r h => by cases h)
-  have hpp : ppI T (.ite a c b) ++ rest = pp T 0 a ++ .falls :: (ppI T c ++ .sonst :: (ppI T b ++ rest)) := by
+  obtain ⟨f1, h1⟩ := iha (.falls :: (ppI T c ++ .sonst :: (ppI T b ++ rest))) (fun o r h => by cases h)
+  have hpp : ppI T (.ite a c b) ++ rest = ppX T a ++ .falls :: (ppI T c ++ .sonst :: (ppI T b ++ rest)) := by
     simp [ppI]
   let F' := max (max f2 f3) 1
   have hF'1 : 1 ≤ F' := Nat.le_max_right _ _
@@ -357,7 +429,7 @@ theorem SI_ite (a c b : E) (iha : S T a) (ihc : SI T c) (ihb : SI T b) : SI T (.
   have hF'3 : f3 ≤ F' := Nat.le_trans (Nat.le_max_right f2 f3) (Nat.le_max_left _ _)
   let F := max f1 (F' + 1)
   refine ⟨F + 1, ?_⟩
-  rw [hpp, parseIf_succ, parse_mono T (Nat.le_max_left f1 (F'+1)) h1]
+  rw [hpp, parseIf_succ, parseX_mono T (Nat.le_max_left f1 (F'+1)) h1]
   simp only [Option.bind_some]
   apply loopIf_mono T (Nat.le_max_right f1 (F'+1))
   rw [loopIf_falls, parseIf_mono T hF'2 h2]
@@ -368,32 +440,58 @@ theorem SI_ite (a c b : E) (iha : S T a) (ihc : SI T c) (ihb : SI T b) : SI T (.
   rw [hg]
   exact loopIf_other T hok.2
 
+/-- `entweder a, oder b` as a `boolXOR` operand -/
+theorem SX_xor (a b : E) (iha : S T a) (ihb : S T b) : SX T (.xor a b) := by
+  intro rest hok
+  obtain ⟨f2, h2⟩ := ihb 0 (Nat.zero_le _) rest (fun o r hr => absurd hr (hok o r))
+  obtain ⟨f1, h1⟩ := iha 0 (Nat.zero_le _) (.oderk :: (pp T 0 b ++ rest)) (fun o r h => by cases h)
+  have hpp : ppX T (.xor a b) ++ rest = .entw :: (pp T 0 a ++ .oderk :: (pp T 0 b ++ rest)) := by simp [ppX]
+  refine ⟨max f1 f2 + 1, ?_⟩
+  rw [hpp, parseX_entw, parse_mono T (Nat.le_max_left f1 f2) h1]
+  simp only [Option.bind_some, expectOderk]
+  rw [parse_mono T (Nat.le_max_right f1 f2) h2]
+  rfl
+
+theorem S_xor (a b : E) (hSI : SI T (.xor a b)) : S T (.xor a b) := by
+  intro k hk rest hok
+  have := S_paren T hSI k hk rest hok
+  simpa [pp, ppI] using this
+
 theorem S_ite (a c b : E) (hSI : SI T (.ite a c b)) : S T (.ite a c b) := by
   intro k hk rest hok
   have := S_paren T hSI k hk rest hok
   simpa [pp, ppI] using this
 
-theorem both : ∀ e, wf T e → S T e ∧ S' T e ∧ SI T e := by
+theorem both : ∀ e, wf T e → S T e ∧ S' T e ∧ SI T e ∧ SX T e := by
   intro e
   induction e with
   | atom a =>
     intro _
-    exact ⟨S_atom T a, fun j hj => S'_of_S T (S_atom T a) j rfl hj, SI_of_S T rfl (S_atom T a)⟩
+    have hx := SX_of_S T rfl (S_atom T a)
+    exact ⟨S_atom T a, fun j hj => S'_of_S T (S_atom T a) j rfl hj, SI_of_SX T rfl hx, hx⟩
   | un u e ih =>
     intro h
     have hs := S_un T u e (ih h).1
-    exact ⟨hs, fun j hj => S'_of_S T hs j rfl hj, SI_of_S T rfl hs⟩
+    have hx := SX_of_S T rfl hs
+    exact ⟨hs, fun j hj => S'_of_S T hs j rfl hj, SI_of_SX T rfl hx, hx⟩
   | bin o l r ihl ihr =>
     intro h
     obtain ⟨ho, hl, hr⟩ := h
     exact ⟨S_bin T o l r ho (ihl hl).2.1 (ihr hr).1, S'_bin T o l r ho (ihl hl).2.1 (ihr hr).1,
-           SI_bin T o l r ho (ihl hl).2.1 (ihr hr).1⟩
+           SI_bin T o l r ho (ihl hl).2.1 (ihr hr).1, SX_bin T o l r ho (ihl hl).2.1 (ihr hr).1⟩
   | ite a c b iha ihc ihb =>
     intro h
     obtain ⟨ha, hc, hb⟩ := h
-    have hsi := SI_ite T a c b (iha ha).1 (ihc hc).2.2 (ihb hb).2.2
+    have hsi := SI_ite T a c b (iha ha).2.2.2 (ihc hc).2.2.1 (ihb hb).2.2.1
     have hs := S_ite T a c b hsi
-    exact ⟨hs, fun j hj => S'_of_S T hs j rfl hj, hsi⟩
+    exact ⟨hs, fun j hj => S'_of_S T hs j rfl hj, hsi, SX_of_S T rfl hs⟩
+  | xor a b iha ihb =>
+    intro h
+    obtain ⟨ha, hb⟩ := h
+    have hx := SX_xor T a b (iha ha).1 (ihb hb).1
+    have hsi := SI_of_SX T rfl hx
+    have hs := S_xor T a b hsi
+    exact ⟨hs, fun j hj => S'_of_S T hs j rfl hj, hsi, hx⟩
 
 /-! ### the theorem -/
 
@@ -407,7 +505,7 @@ theorem parse_pp_at (e : E) (hwf : wf T e) (k : Nat) (hk : k ≤ T.n) (rest : Li
 alternative of a conditional expression) -/
 theorem parseIf_pp_at (e : E) (hwf : wf T e) (rest : List Tok) (hok : okRestI rest) :
     ∃ f, parseIf T f (ppI T e ++ rest) = some (e, rest) :=
-  (both T e hwf).2.2 rest hok
+  (both T e hwf).2.2.1 rest hok
 
 /-- the whole expression: nothing left over -/
 theorem parse_pp (e : E) (hwf : wf T e) : ∃ f, parseIf T f (ppI T e) = some (e, []) := by
@@ -436,6 +534,12 @@ theorem closeParen_len {p x} (h : closeParen p = some x) : x.2.length < p.2.leng
   · next rest' hp => cases h; simp [hp]
   · cases h
 
+theorem expectOderk_len {p x} (h : expectOderk p = some x) : x.2.length < p.2.length := by
+  unfold expectOderk at h
+  split at h
+  · next rest' hp => cases h; simp [hp]
+  · cases h
+
 theorem expectSonst_len {p x} (h : expectSonst p = some x) : x.2.length < p.2.length := by
   unfold expectSonst at h
   split at h
@@ -446,13 +550,14 @@ theorem progress : ∀ f,
     (∀ k ts x, parse T f k ts = some x → x.2.length < ts.length) ∧
     (∀ k l ts x, loop T f k l ts = some x → x.2.length ≤ ts.length) ∧
     (∀ ts x, parseIf T f ts = some x → x.2.length < ts.length) ∧
-    (∀ l ts x, loopIf T f l ts = some x → x.2.length ≤ ts.length) := by
+    (∀ l ts x, loopIf T f l ts = some x → x.2.length ≤ ts.length) ∧
+    (∀ ts x, parseX T f ts = some x → x.2.length < ts.length) := by
   intro f
   induction f with
-  | zero => refine ⟨?_, ?_, ?_, ?_⟩ <;> intros <;> simp_all [parse_zero, loop_zero, parseIf_zero, loopIf_zero]
+  | zero => refine ⟨?_, ?_, ?_, ?_, ?_⟩ <;> intros <;> simp_all [parse_zero, loop_zero, parseIf_zero, loopIf_zero, parseX_zero]
   | succ f ih =>
-    obtain ⟨ihp, ihl, ihpI, ihlI⟩ := ih
-    refine ⟨?_, ?_, ?_, ?_⟩
+    obtain ⟨ihp, ihl, ihpI, ihlI, ihpX⟩ := ih
+    refine ⟨?_, ?_, ?_, ?_, ?_⟩
     · intro k ts x h
       by_cases hk : k < T.n
       · rw [parse_chain T hk] at h
@@ -472,6 +577,8 @@ theorem progress : ∀ f,
           | rp => simp [parse_rp T hk] at h
           | falls => simp [parse_falls T hk] at h
           | sonst => simp [parse_sonst T hk] at h
+          | entw => simp [parse_entw T hk] at h
+          | oderk => simp [parse_oderk T hk] at h
           | uop u =>
             rw [parse_uop T hk] at h
             cases hp : parse T f k rest with
@@ -507,11 +614,11 @@ theorem progress : ∀ f,
         rw [loop_other T hb'] at h; cases h; simp
     · intro ts x h
       rw [parseIf_succ] at h
-      cases hp : parse T f 0 ts with
+      cases hp : parseX T f ts with
       | none => simp [hp] at h
       | some p =>
         simp only [hp, Option.bind_some] at h
-        have a := ihp _ _ _ hp
+        have a := ihpX _ _ hp
         have b := ihlI _ _ _ h
         omega
     · intro l ts x h
@@ -537,15 +644,41 @@ theorem progress : ∀ f,
               simp only [List.length_cons]; omega
       · have hb' : ∀ r, ts ≠ .falls :: r := fun r hh => hb ⟨r, hh⟩
         rw [loopIf_other T hb'] at h; cases h; simp
+    · intro ts x h
+      by_cases hb : ∃ r, ts = .entw :: r
+      · obtain ⟨rest, rfl⟩ := hb
+        rw [parseX_entw] at h
+        cases hp : parse T f 0 rest with
+        | none => simp [hp] at h
+        | some p1 =>
+          simp only [hp, Option.bind_some] at h
+          cases he : expectOderk p1 with
+          | none => simp [he] at h
+          | some pa =>
+            simp only [he, Option.bind_some] at h
+            cases hp2 : parse T f 0 pa.2 with
+            | none => simp [hp2] at h
+            | some pb =>
+              simp only [hp2, Option.bind_some] at h
+              cases h
+              have a := ihp _ _ _ hp
+              have b := expectOderk_len he
+              have c := ihp _ _ _ hp2
+              simp only [List.length_cons]; omega
+      · have hb' : ∀ r, ts ≠ .entw :: r := fun r hh => hb ⟨r, hh⟩
+        rw [parseX_other T hb'] at h
+        exact ihp _ _ _ h
 
 /-! ### the fuel that always suffices -/
 
 /-- fuel for chain rung `k` (or `unary` / `primary`) on `ts` -/
-def bound (k : Nat) (ts : List Tok) : Nat := ts.length * (T.n + 4) + (T.n + 1 - k)
+def bound (k : Nat) (ts : List Tok) : Nat := ts.length * (T.n + 5) + (T.n + 1 - k)
 /-- fuel for `ifExpression` on `ts` -/
-def boundI (ts : List Tok) : Nat := ts.length * (T.n + 4) + (T.n + 2)
+def boundI (ts : List Tok) : Nat := ts.length * (T.n + 5) + (T.n + 3)
+/-- fuel for `boolXOR` on `ts` -/
+def boundX (ts : List Tok) : Nat := ts.length * (T.n + 5) + (T.n + 2)
 /-- fuel for the loop of a rung on `ts` -/
-def lbound (ts : List Tok) : Nat := ts.length * (T.n + 4) + 1
+def lbound (ts : List Tok) : Nat := ts.length * (T.n + 5) + 1
 
 theorem mul_mono_len {a b : Nat} (c : Nat) (h : a < b) : a * c + c ≤ b * c := by
   have : (a + 1) * c ≤ b * c := Nat.mul_le_mul_right c h
@@ -558,13 +691,14 @@ theorem fuel_suffices : ∀ f,
     (∀ k ts x, parse T f k ts = some x → parse T (bound T k ts) k ts = some x) ∧
     (∀ k l ts x, loop T f k l ts = some x → loop T (lbound T ts) k l ts = some x) ∧
     (∀ ts x, parseIf T f ts = some x → parseIf T (boundI T ts) ts = some x) ∧
-    (∀ l ts x, loopIf T f l ts = some x → loopIf T (lbound T ts) l ts = some x) := by
+    (∀ l ts x, loopIf T f l ts = some x → loopIf T (lbound T ts) l ts = some x) ∧
+    (∀ ts x, parseX T f ts = some x → parseX T (boundX T ts) ts = some x) := by
   intro f
   induction f with
-  | zero => refine ⟨?_, ?_, ?_, ?_⟩ <;> intros <;> simp_all [parse_zero, loop_zero, parseIf_zero, loopIf_zero]
+  | zero => refine ⟨?_, ?_, ?_, ?_, ?_⟩ <;> intros <;> simp_all [parse_zero, loop_zero, parseIf_zero, loopIf_zero, parseX_zero]
   | succ f ih =>
-    obtain ⟨ihp, ihl, ihpI, ihlI⟩ := ih
-    refine ⟨?_, ?_, ?_, ?_⟩
+    obtain ⟨ihp, ihl, ihpI, ihlI, ihpX⟩ := ih
+    refine ⟨?_, ?_, ?_, ?_, ?_⟩
     · intro k ts x h
       by_cases hk : k < T.n
       · rw [parse_chain T hk] at h
@@ -581,7 +715,7 @@ theorem fuel_suffices : ∀ f,
           rw [parse_mono T h1 a]
           simp only [Option.bind_some]
           apply loop_mono T _ b
-          have := mul_mono_len (T.n + 4) len
+          have := mul_mono_len (T.n + 5) len
           unfold lbound bound; omega
       · cases ts with
         | nil => simp [parse_nil T hk] at h
@@ -594,6 +728,8 @@ theorem fuel_suffices : ∀ f,
           | rp => simp [parse_rp T hk] at h
           | falls => simp [parse_falls T hk] at h
           | sonst => simp [parse_sonst T hk] at h
+          | entw => simp [parse_entw T hk] at h
+          | oderk => simp [parse_oderk T hk] at h
           | uop u =>
             rw [parse_uop T hk] at h
             cases hp : parse T f k rest with
@@ -636,7 +772,7 @@ theorem fuel_suffices : ∀ f,
             rw [parse_mono T h1 a]
             simp only [Option.bind_some]
             apply loop_mono T _ b
-            have := mul_mono_len (T.n + 4) len
+            have := mul_mono_len (T.n + 5) len
             unfold lbound; simp only [List.length_cons]; rw [Nat.add_mul]; omega
         · rw [loop_bop_ne T ho] at h; rw [hlb, loop_bop_ne T ho]; exact h
       · have hb' : ∀ o r, ts ≠ .bop o :: r := fun o r hh => hb ⟨o, r, hh⟩
@@ -645,20 +781,20 @@ theorem fuel_suffices : ∀ f,
         rw [hlb, loop_other T hb']; exact h
     · intro ts x h
       rw [parseIf_succ] at h
-      cases hp : parse T f 0 ts with
+      cases hp : parseX T f ts with
       | none => simp [hp] at h
       | some p =>
         simp only [hp, Option.bind_some] at h
-        have a := ihp _ _ _ hp
+        have a := ihpX _ _ hp
         have b := ihlI _ _ _ h
-        have len := (progress T f).1 _ _ _ hp
+        have len := (progress T f).2.2.2.2 _ _ hp
         have hb : boundI T ts = (boundI T ts - 1) + 1 := by unfold boundI; omega
         rw [hb, parseIf_succ]
-        have h1 : bound T 0 ts ≤ boundI T ts - 1 := by unfold bound boundI; omega
-        rw [parse_mono T h1 a]
+        have h1 : boundX T ts ≤ boundI T ts - 1 := by unfold boundX boundI; omega
+        rw [parseX_mono T h1 a]
         simp only [Option.bind_some]
         apply loopIf_mono T _ b
-        have := mul_mono_len (T.n + 4) len
+        have := mul_mono_len (T.n + 5) len
         unfold lbound boundI; omega
     · intro l ts x h
       by_cases hb : ∃ r, ts = .falls :: r
@@ -689,17 +825,54 @@ theorem fuel_suffices : ∀ f,
               rw [parseIf_mono T h1 a]
               simp only [Option.bind_some, he]
               have h2 : boundI T pc.2 ≤ lbound T (.falls :: rest) - 1 := by
-                have := mul_mono_len (T.n + 4) (Nat.lt_trans l2 l1)
+                have := mul_mono_len (T.n + 5) (Nat.lt_trans l2 l1)
                 unfold boundI lbound; simp only [List.length_cons]; rw [Nat.add_mul]; omega
               rw [parseIf_mono T h2 c]
               simp only [Option.bind_some]
               apply loopIf_mono T _ d
-              have := mul_mono_len (T.n + 4) (Nat.lt_trans l3 (Nat.lt_trans l2 l1))
+              have := mul_mono_len (T.n + 5) (Nat.lt_trans l3 (Nat.lt_trans l2 l1))
               unfold lbound; simp only [List.length_cons]; rw [Nat.add_mul]; omega
       · have hb' : ∀ r, ts ≠ .falls :: r := fun r hh => hb ⟨r, hh⟩
         rw [loopIf_other T hb'] at h
         have hlb : lbound T ts = (lbound T ts - 1) + 1 := by unfold lbound; omega
         rw [hlb, loopIf_other T hb']; exact h
+    · intro ts x h
+      by_cases hb : ∃ r, ts = .entw :: r
+      · obtain ⟨rest, rfl⟩ := hb
+        have hbx : boundX T (.entw :: rest) = (boundX T (.entw :: rest) - 1) + 1 := by unfold boundX; omega
+        rw [parseX_entw] at h
+        cases hp : parse T f 0 rest with
+        | none => simp [hp] at h
+        | some p1 =>
+          simp only [hp, Option.bind_some] at h
+          cases he : expectOderk p1 with
+          | none => simp [he] at h
+          | some pa =>
+            simp only [he, Option.bind_some] at h
+            cases hp2 : parse T f 0 pa.2 with
+            | none => simp [hp2] at h
+            | some pb =>
+              simp only [hp2, Option.bind_some] at h
+              have a := ihp _ _ _ hp
+              have c := ihp _ _ _ hp2
+              have l1 := (progress T f).1 _ _ _ hp
+              have l2 := expectOderk_len he
+              rw [hbx, parseX_entw]
+              have h1 : bound T 0 rest ≤ boundX T (.entw :: rest) - 1 := by
+                unfold bound boundX; simp only [List.length_cons]; rw [Nat.add_mul]; omega
+              rw [parse_mono T h1 a]
+              simp only [Option.bind_some, he]
+              have h2 : bound T 0 pa.2 ≤ boundX T (.entw :: rest) - 1 := by
+                have := mul_mono_len (T.n + 5) (Nat.lt_trans l2 l1)
+                unfold bound boundX; simp only [List.length_cons]; rw [Nat.add_mul]; omega
+              rw [parse_mono T h2 c]
+              exact h
+      · have hb' : ∀ r, ts ≠ .entw :: r := fun r hh => hb ⟨r, hh⟩
+        rw [parseX_other T hb'] at h
+        have a := ihp _ _ _ h
+        have hbx : boundX T ts = (boundX T ts - 1) + 1 := by unfold boundX; omega
+        rw [hbx, parseX_other T hb']
+        exact parse_mono T (by unfold bound boundX; omega) a
 
 /-- the fuel-free entry point is complete: it finds every tree any amount of fuel finds -/
 theorem parseAll_complete {f ts e} (h : parseIf T f ts = some (e, [])) : parseAll T ts = some e := by
